@@ -167,44 +167,60 @@ func ZZRebalancePlain(removed, extra int) {
 	refused := 0
 	for round := 0; round < 2; round++ {
 		ctx, cancel := context.WithCancel(context.Background())
-		r := &nodeBasedBalancer{WaitGroup: &sync.WaitGroup{}, Logger: slog.Default(), scheduleInterval: time.Second, quarantineTime: time.Minute,
+		r := &nodeBasedBalancer{WaitGroup: &sync.WaitGroup{}, Logger: slog.Default(), scheduleInterval: time.Millisecond, quarantineTime: time.Minute,
 			ctx: ctx, cancel: cancel, actionCh: make(chan Action, 16), statusResource: &zzSt{st: mkStatus()}, configResource: cfg,
 			selector: single.NewSelector(), loadRatioAlgorithm: single.DefaultShardsRank, triggerCh: make(chan struct{}, 1)}
 		done := make(chan bool, 1)
 		vGo("rebalance", func() { r.rebalanceEnsemble(); done <- true })
 		swaps := 0
 		finished := false
+		apply := func(act Action) {
+			sw := act.(*SwapNodeAction)
+			swaps++
+			vAssert("round-terminates", swaps <= 12)
+			_, isServer := cfg.Node(sw.To.Internal)
+			vAssert("target-is-a-current-server", isServer)
+			e := ens[sw.Shard]
+			at, dup := -1, false
+			for i := range e {
+				if e[i].Internal == sw.To.Internal {
+					dup = true
+				}
+				if e[i].Internal == sw.From.Internal {
+					at = i
+				}
+			}
+			if at < 0 || dup {
+				refused++ // shardController.swapNode refuses it (ZZSwapStale); the ensemble stays as it is
+			} else {
+				e[at] = sw.To
+			}
+			for i := 0; i < 3; i++ {
+				for j := 0; j < i; j++ {
+					vAssert("ensemble-has-rf-distinct-servers", e[i].Internal != e[j].Internal)
+				}
+			}
+			vSettle(5) // natively: applying a swap (election + catch-up) takes longer than the schedule interval
+			act.Done()
+		}
 		for !finished {
 			select {
 			case act := <-r.actionCh:
-				sw := act.(*SwapNodeAction)
-				swaps++
-				vAssert("round-terminates", swaps <= 12)
-				_, isServer := cfg.Node(sw.To.Internal)
-				vAssert("target-is-a-current-server", isServer)
-				e := ens[sw.Shard]
-				at, dup := -1, false
-				for i := range e {
-					if e[i].Internal == sw.To.Internal {
-						dup = true
-					}
-					if e[i].Internal == sw.From.Internal {
-						at = i
-					}
-				}
-				if at < 0 || dup {
-					refused++ // shardController.swapNode refuses it (ZZSwapStale); the ensemble stays as it is
-				} else {
-					e[at] = sw.To
-				}
-				for i := 0; i < 3; i++ {
-					for j := 0; j < i; j++ {
-						vAssert("ensemble-has-rf-distinct-servers", e[i].Internal != e[j].Internal)
-					}
-				}
-				act.Done()
+				apply(act)
 			case <-done:
+				// The analysis of ONE round (here and in ZZRebalance) is only representative if rounds are serialised
+				// with the application of their swaps: the next round must read a status that contains them.
+				vAssert("a-round-ends-only-after-all-its-swaps-were-applied", len(r.actionCh) == 0)
 				finished = true
+			}
+		}
+		// the coordinator's worker applies whatever the round has proposed, also when the round itself is over
+		for pending := true; pending; {
+			select {
+			case act := <-r.actionCh:
+				apply(act)
+			default:
+				pending = false
 			}
 		}
 		cancel()
